@@ -1,5 +1,6 @@
 """Per-property checks: which cases are explored and how an answer triple is judged."""
 import itertools
+import time
 from .core import PropCheck, Case, Verdict, parse_items, locs, kflags
 from .sx import S, unS
 from . import gen
@@ -763,6 +764,21 @@ class C04(EvalProp):
                 od({"'": one}), od({"''": one}), od({"": one}), od({"'k": one}), od({"k'": one}), od({"a\\\\b": one}), od({"a\\b": one}), od({"a/b": one}),
                 od({"a\\/b": one}), od({" k": one}), od({"k ": one}), od({"k": ("i", 2)}), od({'"k"': one, "k": one}), od({"0": one}), od({"'0'": one}),
                 od({"k": od({"'j'": one})}), od({"k": od({"j": one})}), ("a", od({"'k'": one})), ("a", od({"k": one}))]
+        # negative fractional floats against integers (a float truncated toward zero lands on the integer above it), both as
+        # literals on both sides and against function results of kind integer
+        fl = [f_(-0.5), f_(-2.5), f_(-0.25), f_(-1e-9), f_(0.5), f_(2.5), f_(-3.0), f_(2.0)]
+        il = [("i", 0), ("i", -2), ("i", -3), ("i", 1), ("i", 2), ("i", 3)]
+        lens = ("a",) + tuple(o_(x=v) for v in (("a",), ("a", ("i", 1)), ("a", ("i", 1), ("i", 2)), ("a", ("i", 1), ("i", 2), ("i", 3)), S(""), S("ab"), ("o",), ("i", 5)))
+        LX = ("fn", ("length", ("argt", ("rel", ("sel", ("name", S("x")))))))
+        CX = ("fn", ("count", ("argt", ("rel", ("sel", ("name", S("x"))), ("sel", "wild")))))
+        for op in OPS6:
+            for a in fl:
+                for b in il:
+                    out.append(mk(filt(("cmp", op, ("lit", lit_of(a)), ("lit", lit_of(b)))), ("a", ("i", 0)), {"table": "float-int-literals", "op": op}))
+                    out.append(mk(filt(("cmp", op, ("lit", lit_of(b)), ("lit", lit_of(a)))), ("a", ("i", 0)), {"table": "int-float-literals", "op": op}))
+                for fnx in (LX, CX):
+                    out.append(mk(filt(("cmp", op, fnx, ("lit", lit_of(a)))), lens, {"table": "function-float-literal", "op": op}))
+                    out.append(mk(filt(("cmp", op, ("lit", lit_of(a)), fnx)), lens, {"table": "float-literal-function", "op": op}))
         # arrays nested directly in arrays, inner lengths different, one a prefix of the other (and nested in objects, and deeper)
         i1, i2, i3, i0 = ("i", 1), ("i", 2), ("i", 3), ("i", 0)
         nest = [("a", ("a", i1, i2)), ("a", ("a", i1)), ("a", ("a",)), ("a", ("a", i0)), ("a", ("a", i1), ("a", i2)), ("a", ("a", i1, i2), ("a", i3)),
@@ -783,6 +799,14 @@ class C04(EvalProp):
         ndoc = number_spelling_doc()
         for j, (grp, text) in enumerate(number_spelling_cases()):
             out.append(Case("ns%d" % j, "STR", [S(text), ndoc], {"table": "number-spellings", "query": text}, impl=("E2E", [S(text), ndoc])))
+        # subnormal numbers are numbers: as literals (text) and in the document, every operator, both sides
+        sdoc = ("a", ("i", 0), f_(0.0), "nz", ("i", 1), ("i", -1), f_(5e-324), f_(-5e-324), f_(1e-320), f_(-1e-320), f_(2e-310), f_(2.2250738585072014e-308), f_(1e-200), f_(-1e-200), S("0"), "null")
+        k = 0
+        for lit in ("1e-320", "5e-324", "-1e-320", "2e-310", "2.2250738585072014e-308", "0", "1", "-1e-200"):
+            for op in ("==", "!=", "<", "<=", ">", ">="):
+                for text in ("$[?@ %s %s]" % (op, lit), "$[?%s %s @]" % (lit, op)):
+                    out.append(Case("sn%d" % k, "STR", [S(text), sdoc], {"table": "subnormal", "query": text}, impl=("E2E", [S(text), sdoc])))
+                    k += 1
         return out
 
     def known_class(self, c, ans, I, M, R, S_, K):
@@ -909,7 +933,8 @@ class C14(EvalProp):
             for A in arrs:
                 for B in (arrs if self.tier != "quick" else [arrs[i] for i in sorted(self.rng.sample(range(len(arrs)), 14))] + arrs[:4]):
                     elems.append(o_(x=A, y=B))
-        for K in ([("b", 1), ("b", 0)], [("a", ("i", 1)), ("a", ("i", 2))], [o_(a=("i", 1)), o_(a=("i", 2))], [S(""), S("a"), S("\u00e9")], [f_(0.5), f_(1.5)]):
+        for K in ([("b", 1), ("b", 0)], [("a", ("i", 1)), ("a", ("i", 2))], [o_(a=("i", 1)), o_(a=("i", 2))], [S(""), S("a"), S("\u00e9")], [f_(0.5), f_(1.5)],
+                  [f_(0.0), "nz"], [("a", f_(0.0)), ("a", "nz")], [o_(z=f_(0.0)), o_(z="nz")]):
             arrs = upto3(K)
             for A in arrs[:15]:
                 for B in arrs[:15]:
@@ -1245,7 +1270,7 @@ class C06(ParseProp):
 class C07(ParseProp):
     pid = "C07"
     design_ref = "DESIGN.md section 3, C07"
-    technique = "grammar translated to Coq on every run + Coq theorems (accepted => well-typed, integers in range) + mutation-based differential run against an RFC reference recogniser"
+    technique = "grammar translated to Coq on every run + Coq theorems for all inputs (accepted => well-typed, integers in range, no control character; shape of every token of the pair tree by a sub-derivation theorem) + 34 rejection classes + mutation-based differential run against an RFC reference recogniser"
     level_text = ("Coq theorems over the parser model: every query Build constructs is well-typed in the sense of RFC 9535 2.4.3 unless it calls an "
                   "extension function, and all its index/slice/singular-query integers are within the I-JSON range (C07_typing, C07_int_range: "
                   "induction over Build's recursion). The grammar is translated to Coq on every run; single-token edits of valid sentences and "
@@ -1932,7 +1957,7 @@ class C08(ParseProp):
                   "Partial by nature for the rest: panics inside pest/regex/serde_json, stack exhaustion and wall-clock time are observed by "
                   "running arbitrary strings, near-valid mutants, extreme integers, empty/scalar/deep documents and deeply nested queries "
                   "through every public entry point in isolated workers, in a debug build with overflow checks and in a release build. Parsing terminates for EVERY input string in the model: C08_parser_never_out_of_fuel (PegTerm.v: a PEG without left recursion whose repetition steps consume needs at most length x H + leftmost-height fuel; the rank and nullability tables are produced by the grammar translator and checked by computation against the generated grammar on every run). The answer of the parser model is independent of the fuel beyond that point (C08_parse_answer_independent_of_fuel): a rejection by the model is never an artefact of bounded recursion.")
-    level_note = "partial: stack and time are runtime facts; unbounded recursion depth is the known finding D17 (5000 nested filters abort the process)"
+    level_note = "partial: stack and time are runtime facts; unbounded recursion depth is the known finding D17 (5000 nested filters abort the process), exponential parse time of nested function calls over comparisons the known finding D26"
     rule = ("strings: arbitrary, single-token edits of valid sentences, integer extremes (+-(2^53-1), i64 limits, beyond), nesting sweeps of "
             "queries (filters, parentheses, segments) and documents; programmatic ASTs with I-JSON-range integers; each through parse, the "
             "three query entry points, reference and reference_mut, debug and release; a case is non-trivial when the string parses")
@@ -2005,10 +2030,56 @@ class C08(ParseProp):
             if not gen.valid_ast(q):
                 continue
             out.append(Case("a%d" % k, "ROBAST", [q, d if self.rng.random() < 0.7 else self.rng.choice(docs)], {"ast": True}))
+        # an escaped backslash followed by `u` in a name is two characters, not the start of a unicode escape; other
+        # escape-adjacent shapes; evaluated, not only parsed
+        BS = chr(92)
+        edoc = o_(a=("i", 1), **{BS + "u": ("i", 2), "dir" + BS + "usr": ("i", 3)})
+        for nm in (BS * 2 + "u", "dir" + BS * 2 + "usr", BS * 2 + "u1", BS * 2 + "ua\u00e9\u00e9", BS * 2 + "uD83Dsmile!", BS * 2 + "u00", BS * 2 + "uZZZZ", BS * 4 + "u0041", "a" + BS * 2,
+                   BS * 2, BS + "u0041" + BS * 2 + "u", BS * 2 + "u" + BS * 2 + "u", "\u00e9" + BS * 2 + "u\u00e9"):
+            for q in ("$['%s']" % nm, '$["%s"]' % nm, "$[?@['%s'] == 1]" % nm, "$..['%s']" % nm, "$['a','%s']" % nm):
+                out.append(Case("u%d" % j, "ROB", [S(q), edoc], {"query": q}))
+                j += 1
+        # patterns made of literals, `.` and several `.*` on long subjects: linear for a real regular-expression engine
+        ldoc = ("a", S("a" * 200), S("ab" * 5000), S("a" * 30 + "b"), S("abc"), ("i", 1))
+        for pat in (".*a.*a.*a.*a.*a.*a.*b", ".*a.*b.*a.*c", "a.*a.*a.*a.*a.*a.*a.*a.*a.*c", ".*.*.*.*.*.*.*.*b", "(a*)*b", "(a|aa)+c", ".*a.*a.*a.*a.*a.*a.*a"):
+            for fn in ("match", "search"):
+                q = "$[?%s(@, '%s')]" % (fn, pat)
+                out.append(Case("l%d" % j, "ROB", [S(q), ldoc], {"query": q}))
+                j += 1
         # the listed known finding: unbounded recursion depth
         q = "$" + "[?@" * 5000 + "]" * 5000
         out.append(Case("known_d17", "ROB", [S(q), ("a",)], {"query": "$" + "[?@" * 3 + "... x5000", "d17": True}))
         return out
+
+    @staticmethod
+    def d26_shape(text):
+        """function calls nested a dozen deep with comparisons in their arguments (the listed finding D26)"""
+        import re
+        return len(re.findall(r"[a-z][a-z0-9_]*\(", text)) >= 12 and any(op in text for op in ("==", "!=", "<", ">"))
+
+    def run_witness(self, f):
+        if f["class"] != "D26-exponential-backtracking":
+            return True
+        # growth of the parse time with the nesting depth, measured on the release harness: depth 13 against depth 10
+        import subprocess
+        from . import runner
+        from .sx import dump
+        def t_of(n):
+            text = "$[?" + "foo(" * n + "1" + "==1)" * n + "]"
+            line = "PARSE\tw%d\t%s\n" % (n, dump(S(text)))
+            t0 = time.time()
+            try:
+                subprocess.run([runner.HARNESS_RELEASE], input=line, capture_output=True, text=True, timeout=120)
+            except Exception:
+                return 120.0
+            return time.time() - t0
+        try:
+            t10 = min(t_of(10), t_of(10))
+            t13 = t_of(13)
+        except Exception:
+            return False
+        self.stats["d26_parse_seconds_depth10_depth13"] = [round(t10, 3), round(t13, 3)]
+        return t13 > 4 * t10 and t13 > 0.5
 
     def release_may_differ(self, c, a, b):
         # the listed finding manifests as an abort in either build
@@ -2024,6 +2095,9 @@ class C08(ParseProp):
                 self.count("known_D17")
                 return Verdict("known", cls="D17-unbounded-recursion", detail="5000 nested filters: %s" % I[0], nontrivial=True, key=key)
             return Verdict("ok", detail="the D17 witness no longer aborts", nontrivial=True, key=key)
+        if I[0] == "TIMEOUT" and self.d26_shape(c.meta.get("query_full", "") or c.meta.get("query", "")):
+            self.count("known_D26")
+            return Verdict("known", cls="D26-exponential-backtracking", detail="deeply nested function calls over comparisons: %s" % I[0], nontrivial=True, key=key)
         if I[0] in ("OK", "PARSE_ERR"):
             self.count("impl_" + I[0])
             if M and M[0] in ("OK", "PARSE_ERR") and M[0] != I[0]:
